@@ -21310,7 +21310,8 @@ int cg_delete_node(const char *node_name)
             CGNS_DELETE_CHILD(units, cgi_free_units)
 
 /* Children of ZoneIterativeData_t */
-    } else if (strcmp(posit->label,"ZoneIterativeData_t")==0) {
+    } else if (strcmp(posit->label,"ZoneIterativeData_t")==0 ||
+               strcmp(posit->label,"ParticleIterativeData_t")==0) {
         cgns_ziter *parent = (cgns_ziter *)posit->posit;
         if (strcmp(node_label,"Descriptor_t")==0)
             CGNS_DELETE_SHIFT(ndescr, descr, cgi_free_descr)
